@@ -16,6 +16,7 @@ of the wrong size; inputs must be left untouched and a second call later in the 
 same bits.
 """
 import itertools
+import json
 from fractions import Fraction as Fr
 
 import numpy as np
@@ -109,6 +110,8 @@ def gen_region(rng, d, n, cell, region, small, integral):
                 v = (off[k] + rng.randint(-8, 8) / 16.0) * c
             elif region == "halfgrid":       # multiples of c_k/2: every difference is 0 or an exact tie
                 v = rng.randint(-12, 12) / 2.0 * c
+            elif region == "huge":           # coarse and far: k * 128 up to 2^20 (exact in float32, but the
+                v = rng.randint(-8192, 8192) * 128.0   # difference to a fine-grid point needs 27 bits)
             elif region == "lattice":        # multiples of c_k: all distances are zero
                 v = float(rng.randint(-mmax, mmax)) * c
             else:                            # cluster: all differences well inside half a cell
@@ -122,11 +125,20 @@ def gen_present(rng, case):
     """How the same numbers are handed to the function (no effect on the model)."""
     integral_pts = all(float(v).is_integer() for r in (case["X"] + (case["Y"] or [])) for v in r)
     integral_cell = case["cell"] is not None and all(float(c).is_integer() for c in case["cell"])
-    arr = ["f64", "f64", "fortran", "strided", "readonly"] + (["int"] * 3 if integral_pts else [])
+    # (without a cell the Euclidean function IS sklearn's, which by design computes float32 in float32)
+    f32ok = (not (case["kind"] == "pp" and case["cell"] is None)
+             and all(float(np.float32(v)) == float(v) for r in (case["X"] + (case["Y"] or [])) for v in r))
+    arr = (["f64", "f64", "fortran", "strided", "readonly"] + (["int"] * 3 if integral_pts else [])
+           + (["f32"] if f32ok else []))
     cel = ["array", "array", "list", "tuple", "readonly"] + (["intarray", "intlist"] if integral_cell else [])
-    return dict(X=rng.choice(arr), Y=rng.choice(arr), cell=rng.choice(cel),
-                P=rng.choice(["f64", "f64", "fortran", "strided", "readonly"]),
-                alias=(case["Y"] is None and rng.random() < 0.3))
+    px, py = rng.choice(arr), rng.choice(arr)
+    if f32ok and rng.random() < 0.15:
+        # BOTH arrays single precision (sklearn's check_pairwise_arrays then keeps float32): the values
+        # are exactly representable, so the result must be the one for the float64 arrays
+        px = py = "f32"
+    alias = case.get("alias_mode") or (case["Y"] is None and rng.random() < 0.3)
+    return dict(X=px, Y=py, cell=rng.choice(cel),
+                P=rng.choice(["f64", "f64", "fortran", "strided", "readonly"]), alias=alias)
 
 
 def gen_prec(rng, d):
@@ -151,6 +163,8 @@ def gen_case(rng, quick):
     cfam, cell = gen_cell(rng, d, small)
     rows, how = gen_points(rng, d, nx + ny, cell, small)
     regions = None
+    nocell = rng.random() < 0.12
+    regs = REGIONS + ([] if nocell else ["huge", "huge"])
     integral = rng.random() < 0.12
     if integral:
         cfam, cell = "int", [float(rng.randint(1, 16 if small else 200)) for _ in range(d)]
@@ -166,19 +180,46 @@ def gen_case(rng, quick):
     elif rng.random() < 0.45:
         # X and Y each drawn from one region of space, independently: a guard on where the points
         # lie (or on how far apart the two sets are) shows up in one of the 64 combinations
-        rx = rng.choice(REGIONS)
-        ry = rx if rng.random() < 0.4 else rng.choice(REGIONS)
+        rx = rng.choice(regs)
+        ry = rx if rng.random() < 0.4 else rng.choice(regs)
         rows = gen_region(rng, d, nx, cell, rx, small, integral) + gen_region(rng, d, ny, cell, ry, small, integral)
         how = [rx] * nx + [ry] * ny
         regions = [rx, ry]
     case = dict(kind=kind, d=d, X=rows[:nx], Y=rows[nx:], how=how, cell=cell, cell_family=cfam,
-                squared=rng.random() < 0.5, mismatch=None, regions=regions, integral=integral)
-    if rng.random() < 0.12:
+                squared=rng.random() < 0.5, mismatch=None, regions=regions, integral=integral,
+                offset=None, alias_mode=None)
+    if (kind == "mh" or not nocell) and rng.random() < 0.15:
+        # the whole cloud moved by a common offset far larger than its spread (up to 2^27): every
+        # difference is still exact in binary64, so any algebraically equivalent but cancelling
+        # formula (x.x - 2 x.y + y.y) shows.  Not for the no-cell Euclidean call, which IS sklearn's
+        # expanded formula by the statement.
+        off = [rng.choice([-1, 1]) * rng.randint(1, 8) * 2.0 ** rng.randint(20, 24) for _ in range(d)]
+        rows = [[v + o for v, o in zip(r, off)] for r in rows]
+        case["X"], case["Y"], case["offset"] = rows[:nx], rows[nx:], off
+    if nocell:
         case["cell"] = None
-    if rng.random() < 0.15:
+    ra = rng.random()
+    if ra < 0.15:
         # Y=None (both functions: check_pairwise_arrays makes Y = X): all rows go to X so that
         # images / half-cell partners stay inside the call
         case["X"], case["Y"] = rows, None
+    elif ra < 0.30 and len(rows) >= 2:
+        # X and Y are two views of ONE array (overlapping, reversed, interleaved, identical, shifted
+        # by a column): the result may depend on the values only
+        mode = rng.choice(["shift", "shift", "reverse", "interleave", "sameview", "colshift"])
+        if mode == "shift":            # traj[:-1], traj[1:]
+            case["X"], case["Y"] = rows[:-1], rows[1:]
+        elif mode == "reverse":        # a, a[::-1]
+            case["X"], case["Y"] = rows, rows[::-1]
+        elif mode == "interleave":     # a[::2], a[1::2]
+            m2 = len(rows) - len(rows) % 2
+            case["X"], case["Y"] = rows[0:m2:2], rows[1:m2:2]
+        elif mode == "sameview":       # a, a[:]
+            case["X"], case["Y"] = rows, [list(r) for r in rows]
+        else:                          # a[:, :-1], a[:, 1:]
+            case["X"] = rows
+            case["Y"] = [r[1:] + [r[0] + rng.randint(-64, 64) / 16.0] for r in rows]
+        case["alias_mode"] = mode
     if kind == "mh":
         k = rng.randint(1, 3)
         precs = [gen_prec(rng, d) for _ in range(k)]
@@ -192,7 +233,7 @@ def gen_case(rng, quick):
         dd = rng.choice([x for x in range(0, 8) if x != d])
         case["cell"] = (cell * 8)[:dd]
         case["mismatch"] = "cell"
-    elif r < 0.07 and case["Y"] is not None:
+    elif r < 0.07 and case["Y"] is not None and not case["alias_mode"]:
         case["Y"] = [row + [0.0] for row in case["Y"]]
         case["mismatch"] = "columns"
     elif r < 0.13 and kind == "mh":
@@ -212,6 +253,8 @@ def present_array(rows, how):
     a = np.array(rows, dtype=float)
     if how == "int":
         return np.array(rows, dtype=np.int64)
+    if how == "f32":
+        return np.array(rows, dtype=np.float32)
     if how == "fortran":
         return np.asfortranarray(a)
     if how == "strided":
@@ -263,15 +306,59 @@ def same(v, w):
     return np.array_equal(np.asarray(v), np.asarray(w)) and type(v) is type(w)
 
 
+def both_f32(case):
+    """Both point arrays reach check_pairwise_arrays as float32 (which then keeps float32)."""
+    pr = case["present"]
+    return pr["X"] == "f32" and (case["Y"] is None or pr["alias"] is True or pr["Y"] == "f32")
+
+
+# directed cases, run first in every run
+DIRECTED = [
+    # F36: float32 arrays, values exact in float32, difference 2^20 - 2^-7 is not
+    dict(kind="mh", d=2, X=[[2.0 ** 20, 3.0]], Y=[[1.0 / 128, 3.25]], how=["huge", "centred"], cell=[1.0, 2.0],
+         cell_family="int", squared=False, mismatch=None, regions=["huge", "centred"], integral=False, offset=None,
+         alias_mode=None, prec_kinds=["ident"], L=[[[1.0, 0.0], [0.0, 1.0]]], P=[[[1.0, 0.0], [0.0, 1.0]]], cov2d=True,
+         present=dict(X="f32", Y="f32", cell="array", P="f64", alias=False)),
+]
+
+
+def build_xy(case, pr):
+    """The two point arrays as handed to the function; in the alias modes X and Y are views of one
+    array (values are those of case["X"], case["Y"] in every mode)."""
+    mode = pr.get("alias")
+    if not mode or mode is True:
+        X = present_array(case["X"], pr["X"])
+        Y = None if case["Y"] is None else present_array(case["Y"], pr["Y"])
+        return X, (X if mode else Y)
+    dt = np.float32 if pr["X"] == "f32" and pr["Y"] == "f32" else float
+    xs, ys = case["X"], case["Y"]
+    if mode == "shift":
+        base = np.array(xs + ys[-1:], dtype=dt)
+        X, Y = base[:-1], base[1:]
+    elif mode == "reverse":
+        X = np.array(xs, dtype=dt)
+        Y = X[::-1]
+    elif mode == "interleave":
+        base = np.empty((2 * len(xs), len(xs[0])), dtype=dt)
+        base[::2], base[1::2] = xs, ys
+        X, Y = base[::2], base[1::2]
+    elif mode == "sameview":
+        X = np.array(xs, dtype=dt)
+        Y = X[:]
+    else:
+        base = np.array([rx + ry[-1:] for rx, ry in zip(xs, ys)], dtype=dt)
+        X, Y = base[:, :-1], base[:, 1:]
+    if not (np.array_equal(X, np.array(xs)) and np.array_equal(Y, np.array(ys))):
+        raise AssertionError("harness: alias presentation %s does not reproduce the case" % mode)
+    return X, Y
+
+
 def call_once(case, squared):
     """One call through the public API.  Returns (output array or None, error name, error text,
     names of the arguments the call modified)."""
     from skmatter.metrics import pairwise_mahalanobis_distances, periodic_pairwise_euclidean_distances
     pr = case.get("present") or dict(X="f64", Y="f64", cell="array", P="f64", alias=False)
-    X = present_array(case["X"], pr["X"])
-    Y = None if case["Y"] is None else present_array(case["Y"], pr["Y"])
-    if pr.get("alias"):
-        Y = X
+    X, Y = build_xy(case, pr)
     cell = present_cell(case["cell"], pr["cell"])
     args = dict(X=X, Y=Y, cell_length=cell)
     if case["kind"] == "mh":
@@ -321,6 +408,8 @@ def run_impl(case):
             if case["kind"] == "pp":
                 if cell is None:
                     rec["sklearn"] = euclidean_distances(X, Y, squared=case["squared"]).tolist()
+            elif cell is None and case.get("offset"):
+                pass       # the reference itself (sklearn's expanded formula) cancels at large offsets
             elif cell is None:
                 rec["whitened"] = [periodic_pairwise_euclidean_distances(
                     X @ np.array(L), Y @ np.array(L), squared=case["squared"]).tolist() for L in case["L"]]
@@ -498,11 +587,11 @@ def run(ctx):
                  mismatch_cases=0, errors=0, wrapped_coords=0, half_cell_ties=0, max_abs_quotient=0.0,
                  cases_with_tie=0, prec_kinds={}, stack_sizes={}, pairs=0, row_kinds={},
                  region_pairs={}, presentations={}, mismatch_kinds={}, y_none_by_kind={}, integral=0, aliased=0,
-                 flag_pairs_compared=0, purity_checked_calls=0, repeat_calls=0, within_half_cases=0,
+                 common_offset=0, both_float32=0, f36_mahalanobis_float32_cases=0, flag_pairs_compared=0, purity_checked_calls=0, repeat_calls=0, within_half_cases=0,
                  all_points_in_centred_cell_but_fold_needed=0)
     seen, nontrivial = set(), 0
-    for _ in range(ncases):
-        c = gen_case(ctx.rng, ctx.quick)
+    for n in range(ncases):
+        c = json.loads(json.dumps(DIRECTED[n])) if n < len(DIRECTED) else gen_case(ctx.rng, ctx.quick)
         r = run_impl(c)
         cases.append(c)
         recs.append(r)
@@ -525,6 +614,8 @@ def run(ctx):
             stats["presentations"][key] = stats["presentations"].get(key, 0) + 1
         stats["integral"] += c["integral"]
         stats["aliased"] += bool(c["present"]["alias"])
+        stats["common_offset"] += c["offset"] is not None
+        stats["both_float32"] += both_f32(c)
         stats["flag_pairs_compared"] += "error" not in r and "other_error" not in r
         stats["purity_checked_calls"] += 2
         stats["errors"] += "error" in r
@@ -602,6 +693,20 @@ def run(ctx):
     for i in sorted(set(mismatched)):
         msg = oracle(cases[i], recs[i])
         n_search += 1
+        pr = cases[i]["present"]
+        if msg and cases[i]["kind"] == "mh" and both_f32(cases[i]):
+            # finding F36: pairwise_mahalanobis_distances does not promote float32 input (the periodic
+            # Euclidean function does): same values as float64 arrays -> correct result
+            c64 = dict(cases[i], present=dict(pr, X="f64", Y="f64"))
+            if oracle(c64, run_impl(c64)) is None:
+                stats["f36_mahalanobis_float32_cases"] += 1
+                if stats["f36_mahalanobis_float32_cases"] == 1:
+                    C.report_violation(
+                        ctx, "C15 fails on the implementation: pairwise_mahalanobis_distances on float32 arrays takes "
+                        "the differences in single precision before the fold (same values as float64: correct); " + msg,
+                        dict(case=cases[i], observed=recs[i], fix="fixes/F36_mahalanobis_float32_not_promoted.diff"),
+                        key="mahalanobis-float32-not-promoted", found_input=True)
+                continue
         rep = dict(case=cases[i], observed=recs[i], correspondence="ppx_case_ok/mhx_case_ok (Model/PairwiseX.v) + purity / repeat-call / dtype checks")
         if msg:
             C.report_violation(ctx, "C15 fails on the implementation: " + msg, rep, found_input=True)
@@ -621,7 +726,8 @@ def run(ctx):
                trusted_base=C.TRUSTED_BASE_COMMON + [
                    "binary64 subtraction, division, np.round, multiplication and BLAS sums are exact (division: "
                    "correctly rounded and far from rounding ties) on the dyadic exactness domain "
-                   "(points k/128, |x| < 2^14, cells k/8 <= 200.25, precisions k/16)",
+                   "(points k/128, |x| < 2^14, optionally plus a common offset up to 2^27 or, with a cell, coarse "
+                   "coordinates k*128 up to 2^20; cells k/8 <= 200.25, precisions k/16)",
                    "square roots (np.linalg.norm, **0.5) are compared root-free within relative 2^-50"],
                evaluations=len(cases), distinct_nontrivial=nontrivial,
                rule="dyadic point sets in 1..6 dimensions, cell families %s; non-trivial = distinct accepted call with a "
